@@ -54,7 +54,8 @@ InitWorld0 ==
                            [key |-> <<i>>, a0 |-> PairDefs[i].a0, a1 |-> PairDefs[i].a1, pair |-> PairDefs[i].addr, lp |-> PairDefs[i].lp,
                             d0 |-> 1, d1 |-> 1, commission |-> COMMISSION, wl |-> {"lp1"}, m0 |-> 0, m1 |-> 0]]],
       router |-> RTR,
-      nextc |-> 20 ]
+      nextc |-> 20,
+      light |-> FALSE ]
 
 \* token supplies are the sums of the balances just laid out
 InitWorld == [InitWorld0 EXCEPT !.tok = [t \in DOMAIN InitWorld0.tok |->
